@@ -158,8 +158,9 @@ class GridInterpolationKernel(GridKernel):
             # We need to update the grid if
             # 1) it hasn't ever been initialized, or
             # 2) if any of the grid points are "out of bounds"
+            # (the tight bounds are recomputed in floating point: data AT the extent the grid was fitted to is not outside)
             update_grid = (not self.has_initialized_grid.item()) or any(
-                x_min < bound[0] or x_max > bound[1]
+                x_min < bound[0] - 1e-6 * (bound[1] - bound[0]) or x_max > bound[1] + 1e-6 * (bound[1] - bound[0])
                 for x_min, x_max, bound in zip(x_mins, x_maxs, self._tight_grid_bounds)
             )
 
